@@ -101,6 +101,56 @@ def sources(db):
     return out
 
 
+def exact_reduction(db, f, ln):
+    """the binary operator of the reduce/transform_reduce call at line ln only selects among its operands"""
+    for b in f['blocks']:
+        for ev in b['ev']:
+            if ev.get('k') == 'call' and ev.get('ln') == ln and T.short(ev.get('fn', '')) in ('reduce', 'transform_reduce'):
+                args = ev.get('args', [])
+                # (policy?, first, last, init, op, [unary])
+                ops = [a for a in args if any(isinstance(y, dict) and y.get('k') == 'lambda' for y in T.walk(a)) or
+                       (T.strip_copy(a).get('k') == 'var' and T.strip_copy(a).get('s') == 'l')]
+                if not ops:
+                    return False
+                op = ops[0]
+                lam = [y for y in T.walk(op) if isinstance(y, dict) and y.get('k') == 'lambda']
+                if not lam and T.strip_copy(op).get('k') == 'var':
+                    nm = T.strip_copy(op)['n']
+                    for bb in f['blocks']:
+                        for ee in bb['ev']:
+                            if ee.get('k') == 'decl':
+                                for v in ee['vars']:
+                                    if v['n'] == nm:
+                                        lam = [y for y in T.walk(v.get('init') or {}) if isinstance(y, dict) and
+                                               y.get('k') == 'lambda']
+                if not lam or not lam[0].get('fk'):
+                    return False
+                fk = lam[0]['fk']
+                bodies = [db.functions[fk]] if fk in db.functions else []
+                if not bodies and '<lambda@' in fk:
+                    # generic lambda: the event names the template pattern, the bodies are its instantiations
+                    pos = fk[:fk.rindex('<lambda@')] + fk[fk.rindex('<lambda@'):].split('>')[0] + '>'
+                    bodies = [g for k, g in db.functions.items() if k.startswith(pos) and g.get('blocks')]
+                if not bodies:
+                    return False
+                for body in bodies:
+                  for bb in body['blocks']:
+                      for ee in bb['ev']:
+                          for y in T.walk(ee):
+                              if not isinstance(y, dict):
+                                  continue
+                              if y.get('k') == 'bin' and y.get('op') in ('+', '-', '*', '/', '+=', '-=', '*=', '/='):
+                                  return False
+                              if y.get('k') == 'call' and y.get('op') in ('+', '-', '*', '/', '+=', '-=', '*=', '/='):
+                                  return False
+                              if y.get('k') == 'call' and not y.get('op') and \
+                                      T.short(y.get('fn', '')) not in ('min', 'max', 'isnan', 'make_pair', 'pair', 'fmin',
+                                                                       'fmax', 'isfinite', 'get', 'operator()'):
+                                  return False
+                return True
+    return False
+
+
 def has_call(db, fname, callee, arity=None):
     """a call to `callee` (short name) exists in the family of function `fname`"""
     n = 0
@@ -337,6 +387,26 @@ def main(chk, tier):
         chk.units = len(db.units)
         chk.functions_analysed += len(db.functions)
         srcs = sources(db)
+        # a source that moved into a helper CALLED BY the function the table names is the same reviewed source
+        # (extract-function refactorings): remap its key
+        callees = {}
+        for ff in db.functions.values():
+            if ff.get('blocks'):
+                r = root_name(ff)
+                for b in ff['blocks']:
+                    for ev in b['ev']:
+                        if ev.get('k') == 'call' and ev.get('fk') in db.functions:
+                            callees.setdefault(r, set()).add(root_name(db.functions[ev['fk']]))
+        remapped = {}
+        for key in list(srcs):
+            if key in entries:
+                continue
+            kind, fn, tgt = key
+            for (k2, fn2, t2) in entries:
+                if k2 == kind and t2 == tgt and (k2, fn2, t2) not in srcs and fn in callees.get(fn2, ()):
+                    remapped[key] = (k2, fn2, t2)
+        for old_key, new_key in remapped.items():
+            srcs[new_key] = srcs.pop(old_key)
         seen = set()
         for key, sites in sorted(srcs.items()):
             kind, fn, tgt = key
@@ -344,6 +414,14 @@ def main(chk, tier):
             chk.count('c04.1.sources')
             chk.count('c04.1.' + kind)
             e = entries.get(key)
+            if kind == 'S5' and exact_reduction(db, f, ln):
+                # min/max-only reductions are exact, commutative and associative whatever the split: no review needed,
+                # wherever the call lives (so extracting it into a helper changes nothing)
+                seen.add(key)
+                chk.obligation(True, {'source': list(key), 'line': ln, 'disposition':
+                                      'order-insensitive: the operator only selects (min/max/compare), no arithmetic'})
+                chk.count('c04.1.exact_reductions')
+                continue
             if e is None:
                 chk.obligation(False, {'source': list(key), 'line': ln, 'disposition': 'UNREVIEWED'})
                 chk.violation('C04.1', f, '%s %s %s' % key,
@@ -380,7 +458,7 @@ def main(chk, tier):
         rule_union_roots(chk, db, cfgname)
         # table entries that no longer match a source: the table is stale (not a pass)
         for key, e in entries.items():
-            if key not in seen and not e.get('optional'):
+            if key not in seen and not e.get('optional') and key[0] != 'S5':
                 raise AnalysisBroken('C04: table entry %s matches no source in config %s (anchor moved)'
                                      % (list(key), cfgname))
     n = len(configs)
